@@ -496,7 +496,7 @@ def compare(refs, si, op, got):
             want = refs.val.get((si, n))
             if want is None or want[0] != "da":
                 want = refs.full_vars[si][n]
-            d = same(v, want)
+            d = same(v, want, attrs=False)      # the encoding may leave out internal helper attributes: values and dims count
             if d:
                 return f"{n}/derived_variable_differs/{d}"
         d = same(got[2], ref[2])
@@ -609,11 +609,11 @@ class Runner:
             clause = "attrs_depend_on_history"
         else:
             clause = "value_depends_on_history"
-        if is_prop:
+        if is_prop and clause != "exception_depends_on_history":
             key = f"{clause}:{X.group}"
         else:
             cul = []
-            for g, o in sub:
+            for g, o in sub[-1:]:           # the operation that flips the behaviour; earlier ones (set-up) are in `what`
                 desc = o.group
                 if o.family == X.family:
                     diff = sorted(k for k in set(o.args) | set(X.args) if o.args.get(k) != X.args.get(k))
@@ -671,7 +671,11 @@ class Runner:
         for P in basic:
             if P is X:
                 break
-            if compare(self.refs, pair[gi], P, P.run(gs[gi], self.srcs[pair[gi]])):
+            gotP = P.run(gs[gi], self.srcs[pair[gi]])
+            refP = self.refs.val.get((pair[gi], P.label))
+            if refP is None or gotP[0] == "EXC" or refP[0] == "EXC":
+                continue            # only a stored variable holding another VALUE counts as the root cause
+            if compare(self.refs, pair[gi], P, gotP):
                 sub_p = self.minimise(pair, sub, gi, P)
                 dp, gotp = self.observe_fails(pair, sub_p, gi, P)
                 if dp:
@@ -914,9 +918,10 @@ def histories(tier, seed):
     # ---- 1. every operation a, followed by observations on the same grid: all other argument sets of the same method (cache
     #         leaks) + a seeded sample of the whole alphabet (thorough: the whole alphabet)
     n_obs = len(ops_obs) if thorough else 8
+    first = [o for o in ops if o.prop is None] + [o for o in ops if o.prop is not None]     # methods (caches) before plain properties
     for pi, pair in enumerate(pairs):
-        for a in ops:
-            if left() < (budget * 0.35 if not thorough else budget * 0.55):
+        for a in first:
+            if left() < (budget * 0.3 if not thorough else budget * 0.55):
                 break
             obs = list(ops_obs)
             random.Random(seed * 131 + ops.index(a) * 7 + pi).shuffle(obs)
